@@ -51,3 +51,7 @@ pub use prelude::*;
 
 #[cfg(any(test, feature = "test_utils"))]
 pub mod test_utils;
+
+#[cfg(kani)]
+#[path = "/verif/harness/foyer-memory/export.rs"]
+pub mod verif_export;
